@@ -281,7 +281,10 @@ def run(case, hooks=None):
             events.append((inj["t"], 3, "inject", inj))
         events.sort(key=lambda e: (e[0], e[1]))
         tie = case.get("tie", True)
-        for (t, _, what, arg) in events:
+        handled = set()
+        for ei, (t, _, what, arg) in enumerate(events):
+            if ei in handled:
+                continue
             sim.run_until(t0 + t, chunk_first=tie)
             if what == "start":
                 cspec, cmds, rec = callers[arg]
@@ -324,6 +327,22 @@ def run(case, hooks=None):
             elif what == "hup":
                 if sim.gw.fd is not None:
                     sim.loop.fire_reader(sim.gw.fd)
+            elif what == "block":
+                # the application keeps the event loop busy for d seconds (synchronous work): reports that became
+                # readable meanwhile and timers that came due are handled in the same pass afterwards - I/O first
+                for ej in range(ei + 1, len(events)):
+                    t2, _o, what2, arg2 = events[ej]
+                    if what2 == "inject" and t2 <= t + arg["d"]:
+                        # what the gateway reports during the blockage becomes readable at its own time
+                        sim.inject(make_report(drv, arg2), at=t0 + t2)
+                        handled.add(ej)
+                sim.loop.advance(arg["d"])
+                if sim.gw.pending and sim.gw.pending[0][0] <= sim.loop.time():
+                    sim.deliver()
+            elif what == "app_connect":
+                # the application asks the driver to connect again (e.g. after 'failed' was reported)
+                sim.loop.call_soon(sim.driver.connect)
+                obs.setdefault("app_connect_calls", []).append(sim.loop.time())
             elif what == "restore":
                 sim.restore()
                 if arg.get("renamed") and hasattr(sim.gw, "node"):
